@@ -2025,7 +2025,7 @@ fn no_closer_matches(
     true
 }
 
-/// Find the NSEC record covering `test_name`, if any.
+/// Find the NSEC record proving that `test_name` does not exist, if any.
 fn find_nsec_covering_record<'a>(
     soa_name: Option<&Name>,
     test_name: &Name,
@@ -2037,6 +2037,12 @@ fn find_nsec_covering_record<'a>(
         // An NSEC record from the parent side of a zone cut says nothing about the names below
         // the cut, those belong to the child zone. (RFC 6840 4.1)
         if is_ancestor_delegation(nsec_data) && nsec_name.zone_of(test_name) {
+            return false;
+        }
+
+        // If the next domain name is a subdomain of the test name, the test name is an empty
+        // non-terminal, which does exist. (RFC 4592 2.2.2)
+        if test_name.zone_of(next_domain_name) {
             return false;
         }
 
@@ -2747,6 +2753,57 @@ mod test {
                 &nsecs,
             ),
             Proof::Secure
+        );
+
+        Ok(())
+    }
+
+    // A name that has the next domain name of an NSEC record below it is an empty non-terminal,
+    // it is not proven to be non-existent by that record (RFC 4592 2.2.2)
+    #[test]
+    fn nsec_invalid_name_error_empty_non_terminal() -> Result<(), ProtoError> {
+        subscribe();
+
+        // ent.example. does exist, since a.ent.example. does.
+        assert_eq!(
+            verify_nsec(
+                &Query::new(Name::from_ascii("ent.example.")?, A),
+                Some(&Name::from_ascii("example.")?),
+                ResponseCode::NXDomain,
+                &[],
+                &[(
+                    &Name::from_ascii("example.")?,
+                    &rdataNSEC::new(
+                        Name::from_ascii("a.ent.example.")?,
+                        [DNSKEY, NS, NSEC, RRSIG, SOA],
+                    ),
+                ),],
+            ),
+            Proof::Bogus
+        );
+
+        // b.example. does not exist, but the wildcard *.example. does, since a.*.example. does.
+        assert_eq!(
+            verify_nsec(
+                &Query::new(Name::from_ascii("b.example.")?, A),
+                Some(&Name::from_ascii("example.")?),
+                ResponseCode::NXDomain,
+                &[],
+                &[
+                    (
+                        &Name::from_ascii("example.")?,
+                        &rdataNSEC::new(
+                            Name::from_ascii("a.*.example.")?,
+                            [DNSKEY, NS, NSEC, RRSIG, SOA],
+                        ),
+                    ),
+                    (
+                        &Name::from_ascii("a.*.example.")?,
+                        &rdataNSEC::new(Name::from_ascii("example.")?, [A, NSEC, RRSIG],),
+                    ),
+                ],
+            ),
+            Proof::Bogus
         );
 
         Ok(())
